@@ -512,7 +512,14 @@ impl Serialize for Extensions {
             ExtensionsVariantV1::Causal(extensions) => {
                 seq.serialize_element(&extensions.log_id)?;
                 seq.serialize_element(&extensions.timestamp)?;
-                seq.serialize_element(&extensions.previous)?;
+
+                // A `HashSet` iterates in an order which differs between instances holding the
+                // same hashes (for example the decoded copy of a header). Encode the set in
+                // sorted order so equal extensions always yield the same bytes, operation id and
+                // signature payload.
+                let mut previous: Vec<&Hash> = extensions.previous.iter().collect();
+                previous.sort();
+                seq.serialize_element(&previous)?;
             }
         }
 
